@@ -7,6 +7,7 @@ import SosModel.Drv.Auth
 import SosModel.Drv.Integrity
 import SosModel.Drv.Crypto
 import SosModel.Drv.Archive
+import SosModel.Drv.Crash
 open Sos
 
 /-- State threaded through a session (stateful domains add fields here). -/
@@ -19,6 +20,7 @@ def stepLine (st : DrvState) (line : String) : DrvState × String :=
   match toks with
   | "merkle" :: rest => (st, Sos.Drv.Merkle.step rest)
   | "archive" :: rest => (st, Sos.Drv.Archive.step rest)
+  | "crash" :: rest => (st, Sos.Drv.Crash.step rest)
   | "crypto" :: rest => (st, Sos.Drv.Crypto.step rest)
   | "integrity" :: rest => (st, Sos.Drv.Integrity.step rest)
   | "auth" :: rest => (st, Sos.Drv.Auth.step rest)
